@@ -20,7 +20,9 @@ theorem parseModBody_vf (o c : Char) (s : List Char) : VF (parseModBody o c s) :
   · split at h
     · split at h
       · cases h; rfl
-      · cases h
+      · split at h
+        · cases h; rfl
+        · cases h
     · cases h
 
 /-- closes the goals `fun_induction` leaves for a "no foreign error" statement -/
